@@ -25,6 +25,10 @@ def check(ctx):
     ctx.note(f'slice: {len(fns)} functions, {sum(1 for f, v in ps.ctxs.items() if True in v)} with a persistent '
              f'receiver, {len(ps.prov.bind)} formals bound to persistent state')
     ps.check_escape(roots[0], position=0)
+    # the managers turn the encoder's vector into (values, activeness) on a copy of their own: the vector may be a row
+    # of the encoder's stored table, which later decodes read again
+    from ..rules import vectors as _v05
+    _v05.manager_contract(ctx)
     persist.check_memo_functions(ctx, [f for f in ctx.prog.all_functions()
                                        if not f.module.name.startswith('adsg_core.examples')])
     from ..rules import shared
